@@ -182,6 +182,11 @@ class AddInteraction(Contract):
             ctx.oblige('C03.canonical.' + name, f, tags=('C03',), use=('shape', 'canon'))
         for name, f in spec.shape_goals(g, x, y, x2, y2).items():
             ctx.oblige('C03.shape.' + name, f, tags=('C03',), use=('shape',))
+        # what a later call on the same pair needs to know to be accepted (used by callers through `apply`)
+        r1, n1, S1, E1 = spec.tl(g, u, v)
+        ctx.oblige('C03.latest_run.end', z3.And(r1 != 0, n1 >= 1, E1[n1 - 1] == z3.If(z3.And(r0 != 0, E0[n0 - 1] > t1), E0[n0 - 1], t1)),
+                   tags=('C03', 'C06', 'C16'), use=('shape', 'canon'))
+        ctx.oblige('C03.latest_run.starts_no_later_than_t', S1[n1 - 1] <= c.t, tags=('C03', 'C06', 'C16'), use=('shape', 'canon'))
         # C05 event log
         for name, f in spec.events_goals(g, x, y, 2, q, op).items():
             ctx.oblige('C05.events.' + name, f, tags=('C05',), use=('shape', 'canon', 'events', 'tte'))
@@ -353,3 +358,79 @@ class AddInteraction(Contract):
         rep['class'] = self.cls
         rep['calls_in_history'] = len(calls)
         return rep
+
+    # ------------------------------------------------------------------ caller side (modular use)
+    def apply(self, interp, g, argv, kwv):
+        """What a caller of add_interaction sees: assert the precondition, branch on the documented rejections,
+        havoc the graph and assume the postcondition (over the ghost presence view).  Removal mode."""
+        ctx = interp.ctx
+        names = ['u', 'v', 't', 'e']
+        args = dict(zip(names, argv))
+        for k_, v_ in kwv.items():
+            if k_ not in names or k_ in args:
+                raise PyRaise('TypeError', 'add_interaction argument ' + k_)
+            args[k_] = v_
+        if 'u' not in args or 'v' not in args:
+            raise PyRaise('TypeError', 'add_interaction needs u and v')
+        u, v = args['u'], args['v']
+        t, e = args.get('t', VNone), args.get('e', VNone)
+        if u.kind != 'node' or v.kind != 'node':
+            raise Undecided('add_interaction called with non-node endpoints')
+        if not z3.is_true(g['ER']):
+            raise Undecided('caller-side contract of add_interaction is stated for edge_removal=True')
+        if not g.valid:
+            raise Undecided('add_interaction called on a graph whose representation invariant is not established '
+                            '(the caller wrote its edge representation directly)')
+        if t.kind == 'none':
+            raise PyRaise('NetworkXError', 'The t argument must be specified.')
+        if t.kind != 'int':
+            # a list (or anything else) as t is outside the contract: the stored interval would alias the argument
+            ctx.oblige('pre.add_interaction.t_is_an_int', z3.BoolVal(False), kind='pre',
+                       note='t of kind %s passed to add_interaction' % t.kind)
+            raise Undecided('add_interaction called with t of kind %s' % t.kind)
+        if e.kind not in ('none', 'int'):
+            raise Undecided('add_interaction called with e of kind %s' % e.kind)
+        if e.kind == 'int':
+            ctx.oblige('pre.add_interaction.vanishing_time_after_start', e.z > t.z, kind='pre',
+                       note='finding D23: e <= t is outside the contract; callers must establish e > t')
+            ctx.assume(e.z > t.z, 'call')
+        view0 = ctx.views.get(g.name)
+        if view0 is None:
+            raise Undecided('no ghost view for graph %s' % g.name)
+        uz, vz, tz = u.z, v.z, t.z
+        t1 = e.z - 1 if e.kind == 'int' else tz
+        ctx.add_focus([uz, vz])
+        r, n, S, E = spec.tl(g, uz, vz)
+        rejected = z3.And(r != 0, tz < S[n - 1])
+        if ctx.branch(rejected, 'add_interaction:rejected'):
+            raise PyRaise('ValueError', 'span starts before the start of the latest run (callee contract)')
+        old = g.snapshot()
+        tag = '@call%d' % len(ctx.hyps)
+        keep = ('ER', 'GAttr', 'Frozen')
+        g.havoc(tag, only=[c for c in g.comp_names() if c not in keep])
+        g.valid = True
+        view1 = spec.View(g.name + tag)
+        ctx.views[g.name] = view1
+        nodes = list(ctx.focus)
+        pairs = ctx.inv_pairs() + [(uz, vz), (vz, uz)]
+        spec.inv_assume(ctx, g, view1, nodes, pairs, k=2)
+        x, y = z3.Consts('x?ap y?ap', Node)
+        q = z3.Int('q?ap')
+        same = lambda a, b: spec.samepair(g, a, b, uz, vz)
+        span = lambda qq: z3.And(tz <= qq, qq <= t1)
+        # presence: union with the span, for every pair (quantified, and instantiated for the pairs in focus)
+        ctx.assume(FA([x, y, q], view1.Pres[x][y][q] == z3.Or(view0.Pres[x][y][q], z3.And(same(x, y), span(q))), [view1.Pres[x][y][q]]), 'call')
+        ctx.assume(FA([x, y, q], z3.Implies(view0.Pres[x][y][q], view1.Pres[x][y][q]), [view0.Pres[x][y][q]]), 'call')
+        C0, C1 = old['Cell_' + g.mainw()], g['Cell_' + g.mainw()]
+        ctx.assume(FA([x, y], (C1[x][y] != 0) == z3.Or(C0[x][y] != 0, same(x, y)), [C1[x][y]]), 'call')
+        ctx.assume(FA([x, y], z3.Implies(C0[x][y] != 0, C1[x][y] != 0), [C0[x][y]]), 'call')
+        for (a, b) in pairs:
+            ctx.assume((C1[a][b] != 0) == z3.Or(C0[a][b] != 0, same(a, b)), 'call')
+        ctx.assume(g['NodeIn'] == z3.Store(z3.Store(old['NodeIn'], uz, True), vz, True), 'call')
+        ctx.assume(FA([x], z3.Implies(old['NodeIn'][x], g['NAttr'][x] == old['NAttr'][x]), [g['NAttr'][x]]), 'call')
+        ctx.assume(FA([x], z3.Implies(z3.And(z3.Not(old['NodeIn'][x]), g['NodeIn'][x]), g['NAttr'][x] == ctx.engine.empty_attr()), [g['NAttr'][x]]), 'call')
+        # the touched pair's timeline end (what later calls need to know to be accepted)
+        r1, n1, S1, E1 = spec.tl(g, uz, vz)
+        ctx.assume(z3.And(r1 != 0, n1 >= 1, E1[n1 - 1] == z3.If(z3.And(r != 0, E[n - 1] > t1), E[n - 1], t1),
+                          S1[n1 - 1] <= tz), 'call')
+        return VNone
